@@ -118,7 +118,7 @@ PROPS["C09"] = {
     "rule": "for each file kind (2.root.json, timestamp, snapshot, targets, delegated role at depth 1 and 2) the applicable "
             "limit (the pinned length when the parent pins one, else the configured limit) is set to size-100000, size-1, "
             "size, size+1, size+100000 (0 when negative); the same with the file replaced by an endless or padded stream; "
-            "chains of 0..max+3 valid newer roots for max_root_updates 0..4; the same chains met by a client whose datastore has recorded a newer root than the one shipped (two-cycle histories); delegation graphs (tree, self, deep self, "
+            "sibling roles of which the snapshot pins a length for one only (default and small max_targets_size); chains of 0..max+3 valid newer roots for max_root_updates 0..4; the same chains met by a client whose datastore has recorded a newer root than the one shipped (two-cycle histories); delegation graphs (tree, self, deep self, "
             "mutual, 3-cycle, diamond, duplicate in one list, sibling back edge, chain of 5, random graphs over <=5 roles); "
             "legitimate repositories with every file exactly at its bound and delegated roles larger than targets.json. "
             "Non-trivial: a file within 1 byte of its bound, an oversized stream, a cyclic graph, or chain >= limit.",
@@ -163,7 +163,8 @@ _HIST_RULE = ("histories of 2..4 update cycles on one datastore directory: all p
               "(timestamp, snapshot, targets, snapshot-listed targets incl. 'entry dropped') in {1,2}^4 (quick, every third "
               "pair) / {1,2,3}^4 (thorough) without root changes, and random histories in which 0..3 newer roots change the "
               "timestamp / snapshot / targets role (disjoint key, added key with the old one kept, both online roles, "
-              "threshold 1->2, re-ordered key list, rotate-and-rotate-back), the repository moves between root epochs, the "
+              "threshold 1->2, re-ordered key list, rotate-and-rotate-back; in a third of the histories the root role rotates its "
+              "own key with every root as well), the repository moves between root epochs, the "
               "shipped root is the oldest, an intermediate or the newest one, every file is genuinely signed by a quorum of the "
               "epoch's keys (for overlapping key sets a random authorized subset) and unexpired, versions go up and down, "
               "stored versions are inflated to 2^63 in one history out of six, and one cycle in eight fails on purpose "
@@ -229,7 +230,8 @@ PROPS["C08"] = {
             "names of length 6..40 through TargetName::new (raw -> resolved or refusal). Saves: one raw name per distinct "
             "resolved form (700 sampled in quick), random long names and absolute names pointing at a unique location "
             "outside the sandbox; per save a random choice of file-name prefix mode, pre-existing file at the destination, "
-            "and transfer fault (clean, bit flip, oversize, truncated, transport error at chunk k), for both "
+            "and transfer fault (clean, bit flip, oversize, truncated, transport error at chunk k), a third of the scripts with an "
+            "empty chunk at a random position, for both "
             "consistent-snapshot settings; the transport stream snapshots the whole sandbox tree (output directory three "
             "levels deep, a bystander directory next to it) every time it is polled. Every save case is non-trivial.",
     "exhaustive": {"quick": True, "thorough": True},
@@ -280,7 +282,8 @@ PROPS["C16"] = {
             "special names '.', '..', 'x.json', 'a%2Fb' vs 'a/b', '%2e%2e', '../../x', '/abs', 'C:\\x', '1.targets', ... and the "
             "reserved family (N.root, root, timestamp, snapshot, targets), each under both consistent-snapshot settings and "
             "several versions. Per name: Role::filename (what the editor writes), the URL path the client requests, the "
-            "datastore entry, the path Repository::cache requests and the entry it writes, and whether anything appeared outside the datastore / "
+            "datastore entry, the path Repository::cache requests and the entry it writes, what FilesystemTransport returns "
+            "for the role's file when that file is absent and a decoy lies at the percent-decoded path, and whether anything appeared outside the datastore / "
             "cache directories (their parents are watched). Every case is non-trivial; pairwise distinctness is checked "
             "over the whole run by the driver (a map from every file name observed at any site to the role name).",
     "exhaustive": {"quick": True, "thorough": True},
@@ -432,7 +435,8 @@ PROPS["C12"] = {
             "strings) injected at every object level incl. inside keys and keyval (key ids recomputed); variants with the "
             "expiry respelled (+00:00, .000Z); then EVERY single-point mutation of the signed portion at every path: "
             "scalar changes (number +1 / 0 / float, boolean flip, string append / first character changed / upper-cased / "
-            "null), member insertion, a second `_type`, the other kind of path set first / last, member deletion, member "
+            "null), member insertion (a fresh name; next to every member a sibling whose name differs from it only by a backslash or "
+            "a quotation mark), a second `_type`, the other kind of path set first / last, member deletion, member "
             "duplication (same value, changed value first, changed value last), array element insertion / deletion / swap / "
             "duplication, `_type` set to every other role; every document presented as every other role (timestamp and "
             "snapshot share a key, targets lists it too); all members of all objects shuffled, whitespace, every string as "
@@ -523,7 +527,7 @@ PROPS["C17"] = {
     "env": {"TUFTOOL": "/verif/.work/tuftool-target/debug/tuftool"},
     "rule": "random repositories as for C19 (delegation trees to depth 3 with up to 6 roles, target and role names with spaces, "
             "non-ASCII and sub-directories, both consistent-snapshot settings, pinned lengths / hashes or not), every target "
-            "entry with custom data, every timestamp / snapshot / targets document with two unknown top-level members (a number "
+            "entry with custom data, every other delegation marked terminating, every timestamp / snapshot / targets document with two unknown top-level members (a number "
             "and a nested object with non-ASCII text); loaded with the real client, passed through RepositoryEditor::from_repo, "
             "new versions and expirations set for targets, snapshot and timestamp, 0..2 new targets added, signed with the online "
             "keys (ECDSA key files), written, and loaded again. Facts compared before / after: every target of every role "
